@@ -196,7 +196,7 @@ func (h *harness) check(ctx *bex.Ctx, prog *vlang.Node, trivialRule func(o strin
 			if !ok {
 				a := tuple[0].(refsem.IntV)
 				ctx.Violate("outcome differs from the reference semantics",
-					map[string]any{"src": src, "a": int64(a), "optimizer": i == 0, "tree": vlang.Dump(prog)},
+					map[string]any{"src": src, "a": int64(a), "optimizer": i == 0, "tree": vlang.Dump(prog), "want": want, "want_any_value": taint},
 					want, o.String(), classify(prog))
 			}
 		}
@@ -344,7 +344,20 @@ func replay(repro map[string]any) (string, bool) {
 	g := vrun.NewGen(opt, addHost)
 	args := []value.Value{value.Int(int64(a)), value.Int(2), value.NewList(value.Int(1), value.Int(2)), vrun.ToImpl(&refsem.MapV{Keys: []string{"k"}, Vals: []refsem.Val{refsem.IntV(5)}})}
 	o := vrun.Run(g, src, argNames, args)
-	return fmt.Sprintf("value.New() optimizer=%v, Generate(%q, a,b,l,m) evaluated with a=%d,b=2,l=[1,2],m={k:5}: %s", opt, src, int64(a), o.String()), true
+	want, _ := repro["want"].(string)
+	anyValue, _ := repro["want_any_value"].(bool)
+	fails := true
+	switch {
+	case want == "":
+		// recorded by an older version of the check: no reference outcome in the file
+	case want == "error":
+		fails = !o.Err
+	case anyValue:
+		fails = o.Err
+	default:
+		fails = o.Err || o.Canon != want
+	}
+	return fmt.Sprintf("value.New() optimizer=%v, Generate(%q, a,b,l,m) evaluated with a=%d,b=2,l=[1,2],m={k:5}: %s; reference semantics: %s", opt, src, int64(a), o.String(), want), fails
 }
 
 func main() {
